@@ -1,7 +1,7 @@
 //! Per-stream tables: C09 (string deduplication) and C10 (reference tracking).
 use bridge::dynrec::{dyn_decode, dyn_encode};
 use bridge::rt::{hex, par_items, val_json, Run, Stats};
-use bridge::tables::{flat_decode, flat_encode, graph_decode, graph_encode, Graph, Node};
+use bridge::tables::{flat_decode, flat_encode, graph_decode, graph_encode, typed_lookup, wgraph_encode, Graph, Node, WGraph, WNode};
 use bridge::Out;
 use refmodel::wire::{vari, varu};
 use refmodel::*;
@@ -566,6 +566,112 @@ fn c10_graph(adj: &Adj, st: &mut Stats, only: &Option<String>) {
     }
 }
 
+/// Two kinds of tracked objects at one address (a node and the core embedded at its offset 0):
+/// all graphs with <= n nodes where each node has <= 1 node edge and <= 1 core edge
+fn c10_typed(max_n: usize, st: &mut Stats) {
+    for n in 1..=max_n {
+        let opts: Vec<Option<usize>> = std::iter::once(None).chain((0..n).map(Some)).collect();
+        let per_node = opts.len() * opts.len();
+        let total = per_node.pow(n as u32);
+        for code in 0..total {
+            let mut c = code;
+            let mut node_edge = Vec::new();
+            let mut core_edge = Vec::new();
+            for _ in 0..n {
+                let k = c % per_node;
+                c /= per_node;
+                node_edge.push(opts[k % opts.len()]);
+                core_edge.push(opts[k / opts.len()]);
+            }
+            st.states += 1;
+            let key = format!("c10typed:{node_edge:?}/{core_edge:?}");
+            let nodes: Vec<Rc<WNode>> = (0..n).map(|i| WNode::new(40 + i as u8)).collect();
+            for i in 0..n {
+                if let Some(t) = node_edge[i] {
+                    nodes[i].edges.borrow_mut().push(nodes[t].clone());
+                }
+                if let Some(t) = core_edge[i] {
+                    nodes[i].core_edges.borrow_mut().push(nodes[t].clone());
+                }
+            }
+            // reference: nodes and cores are numbered separately-typed but in one id space, in
+            // order of first offer
+            fn offer_core(t: usize, core_id: &mut Vec<u32>, next: &mut u32, out: &mut Vec<u8>) {
+                if core_id[t] != 0 {
+                    out.extend(varu(core_id[t]));
+                } else {
+                    *next += 1;
+                    core_id[t] = *next;
+                    out.push(0);
+                    out.push(40 + t as u8);
+                }
+            }
+            fn offer_node(i: usize, ne: &[Option<usize>], ce: &[Option<usize>], node_id: &mut Vec<u32>, core_id: &mut Vec<u32>, next: &mut u32, out: &mut Vec<u8>) {
+                if node_id[i] != 0 {
+                    out.extend(varu(node_id[i]));
+                    return;
+                }
+                *next += 1;
+                node_id[i] = *next;
+                out.push(0);
+                offer_core(i, core_id, next, out);
+                out.push(ne[i].is_some() as u8);
+                if let Some(t) = ne[i] {
+                    offer_node(t, ne, ce, node_id, core_id, next, out);
+                }
+                out.push(ce[i].is_some() as u8);
+                if let Some(t) = ce[i] {
+                    offer_core(t, core_id, next, out);
+                }
+            }
+            let mut node_id = vec![0u32; n];
+            let mut core_id = vec![0u32; n];
+            let mut next = 0u32;
+            let mut refb = Vec::new();
+            offer_node(0, &node_edge, &core_edge, &mut node_id, &mut core_id, &mut next, &mut refb);
+            let enc = wgraph_encode(&WGraph { root: nodes[0].clone() });
+            st.transitions += 1;
+            st.validated += 1;
+            if enc != Out::Ok(refb.clone()) {
+                st.violate(
+                    "C10 typed-identities: objects of different types at one address are not kept apart".to_string(),
+                    key,
+                    json!({"node_edges": format!("{node_edge:?}"), "core_edges": format!("{core_edge:?}"), "library": format!("{enc:?}"), "reference": hex(&refb)}),
+                );
+            } else {
+                st.bump("typed-identities:stream-as-reference");
+                st.nontrivial += 1;
+            }
+            for nd in &nodes {
+                nd.edges.borrow_mut().clear();
+                nd.core_edges.borrow_mut().clear();
+            }
+        }
+    }
+    // reader side: ids resolve to the object (and type) they were given to
+    for n in 1..=3 {
+        let got = typed_lookup(n);
+        st.states += 1;
+        st.transitions += 1;
+        st.validated += 1;
+        let mut want = Vec::new();
+        for i in 0..n {
+            want.push(format!("node{i}"));
+            want.push(format!("core{i}"));
+        }
+        want.push("none".to_string());
+        if got != Out::Ok(want.clone()) {
+            st.violate(
+                "C10 typed-identities: lookup by id returns another object".to_string(),
+                format!("c10lookup:{n}"),
+                json!({"got": format!("{got:?}"), "expected": want}),
+            );
+        } else {
+            st.bump("typed-identities:lookup");
+        }
+    }
+}
+
 pub fn run_c10(tier: &str, only: Option<String>) -> i32 {
     let mut run = Run::new("C10", tier, "model_checking", only);
     let thorough = run.thorough();
@@ -602,7 +708,12 @@ pub fn run_c10(tier: &str, only: Option<String>) -> i32 {
         }
     });
     run.stats = stats;
-    run.rule = format!("all rooted digraphs with <= {max_n} nodes and ordered out-edge lists of length <= 2 (self-loops, diamonds, back edges, unreachable nodes), encoded by a codec that offers the node's heap address to store_ref_or_object and resolves try_read_ref through a Weak self pointer; oracle: stream == pre-order first-encounter reference stream, decoded graph isomorphic with pointer-equal sharing and distinct nodes distinct, one object per reachable node, every reference id beyond the objects introduced so far (and u32::MAX) is Err; non-trivial = graph with sharing or a cycle");
+    if run.only.as_ref().map(|k| k.starts_with("c10typed") || k.starts_with("c10lookup")).unwrap_or(true) {
+        let mut st = Stats::default();
+        c10_typed(if thorough { 4 } else { 3 }, &mut st);
+        run.stats.merge(st);
+    }
+    run.rule = format!("all rooted digraphs with <= {max_n} nodes and ordered out-edge lists of length <= 2 (self-loops, diamonds, back edges, unreachable nodes), encoded by a codec that offers the node's heap address to store_ref_or_object and resolves try_read_ref through a Weak self pointer; oracle: stream == pre-order first-encounter reference stream, decoded graph isomorphic with pointer-equal sharing and distinct nodes distinct, one object per reachable node, every reference id beyond the objects introduced so far (and u32::MAX) is Err; plus all graphs with <= 3 / 4 nodes whose nodes embed a second tracked object (a core at offset 0, i.e. at the same address) with <= 1 node edge and <= 1 core edge each: distinct objects of different types at one address keep distinct ids, on the writer and on the reader side; non-trivial = graph with sharing or a cycle");
     run.bounds = json!({"nodes": max_n, "out_degree": 2});
     run.assumptions = vec!["the harness codec is safe code: identities are heap addresses owned by live Rc's".into()];
     run.finish()
